@@ -434,6 +434,9 @@ func judge(c *Ctx, kind string, sp childSpec, r childResult, wantGuard string) {
 	if strings.HasSuffix(r.memLimit, "GiB") {
 		g, _ := strconv.Atoi(strings.TrimSuffix(r.memLimit, "GiB"))
 		limitkB = float64(g) * 1024 * 1024
+	} else if strings.HasSuffix(r.memLimit, "MiB") {
+		g, _ := strconv.Atoi(strings.TrimSuffix(r.memLimit, "MiB"))
+		limitkB = float64(g) * 1024
 	}
 	ratio := float64(r.peakkB) / limitkB
 	if ratio > maxRSSRatio {
@@ -985,6 +988,10 @@ func extLargeCall(name string, e object.Extension) string {
 
 const largeMem = "1GiB"
 
+// reference step: a guarded copy of the 12M-element operand by the evaluator itself (array + element), timed like the
+// extension calls and reported in the evidence (ext_large_ref_ms) as a measure of the machine's speed during the run
+const refStep = "t0 = time.now()\nw9 = big + 0\nprintln(\"EXTDUR\", \"__ref\", time.now() - t0)\nw9 = nil\n"
+
 func extensionsLargeArgs(c *Ctx) {
 	exts := object.ExtraFunctions()
 	names := make([]string, 0, len(exts))
@@ -1011,6 +1018,7 @@ func extensionsLargeArgs(c *Ctx) {
 	for start := 0; start < len(names); { // a memory-guard panic inside one call ends the program: resume after it
 		var b strings.Builder
 		b.WriteString(largePrelude)
+		b.WriteString(refStep)
 		for _, n := range names[start:] {
 			call := strings.TrimSuffix(extLargeCall(n, exts[n]), "\n1")
 			fmt.Fprintf(&b, "t0 = time.now()\n%s\nprintln(\"EXTDUR\", %q, time.now() - t0)\nr9 = nil\n", call, n)
@@ -1024,8 +1032,11 @@ func extensionsLargeArgs(c *Ctx) {
 			f := strings.Fields(l)
 			if len(f) == 3 && f[0] == "EXTDUR" {
 				d, _ := strconv.ParseFloat(f[2], 64)
-				durs[strings.Trim(f[1], "\"")] = d * 1000
-				seen++
+				name := strings.Trim(f[1], "\"")
+				durs[name] = d * 1000
+				if name != "__ref" {
+					seen++
+				}
 			}
 		}
 		if !r.ok {
@@ -1039,12 +1050,16 @@ func extensionsLargeArgs(c *Ctx) {
 	}
 	c.Extra["ext_large_step_ms"] = durs
 	c.Extra["ext_large_refused_by_memory_guard"] = refused
-	if len(durs)+len(refused) != len(names) {
+	if len(durs)-1+len(refused) != len(names) { // (durs still holds the reference step here)
 		c.Fail("ext-large-all:incomplete", "all extensions on large operands", fmt.Sprintf("%d timed + %d refused of %d", len(durs), len(refused), len(names)))
 	}
+	stepBound := slackMs // the reference copy is reported, not used: the minimum of several samples is what absorbs load
+	c.Extra["ext_large_ref_ms"] = durs["__ref"]
+	c.Extra["ext_large_step_bound_ms"] = stepBound
+	delete(durs, "__ref")
 	var slow []string
 	for _, n := range names {
-		if durs[n] > slackMs {
+		if durs[n] > stepBound {
 			slow = append(slow, n)
 		}
 	}
@@ -1052,16 +1067,21 @@ func extensionsLargeArgs(c *Ctx) {
 	//     smaller of the two samples is the step time.  Thorough: every extension alone as well, and the recorded findings.
 	timedAlone := func(n string, kill time.Duration) (float64, childSpec, childResult) {
 		call := strings.TrimSuffix(extLargeCall(n, exts[n]), "\n1")
-		src := largePrelude + "t0 = time.now()\n" + call + "\nprintln(\"EXTDUR\", \"" + n + "\", time.now() - t0)\n1"
+		src := largePrelude + refStep + "t0 = time.now()\n" + call + "\nprintln(\"EXTDUR\", \"" + n + "\", time.now() - t0)\n1"
 		sp := childSpec{Src: src, MaxDepth: 300, DurMs: 120000, ASLimit: asLimit, KeepOut: true}
 		r := runChild(c, sp, largeMem, kill)
-		d := -1.0
+		d, ref := -1.0, 0.0
 		for _, l := range strings.Split(r.rep.ResOut, "\n") {
 			if f := strings.Fields(l); len(f) == 3 && f[0] == "EXTDUR" {
 				v, _ := strconv.ParseFloat(f[2], 64)
-				d = v * 1000
+				if f[1] == "\"__ref\"" {
+					ref = v * 1000
+				} else {
+					d = v * 1000
+				}
 			}
 		}
+		_ = ref
 		return d, sp, r
 	}
 	alone := slow
@@ -1082,10 +1102,15 @@ func extensionsLargeArgs(c *Ctx) {
 		if b, ok := durs[n]; ok && b < d {
 			d = b
 		}
+		for try := 0; try < 3 && d > stepBound && !knownSlow[n]; try++ { // a loaded sandbox: the smallest of up to five samples counts
+			if d2, _, r2 := timedAlone(n, kill); r2.ok && d2 >= 0 && d2 < d {
+				d = d2
+			}
+		}
 		final[n] = d
-		if d > slackMs {
+		if d > stepBound {
 			c.Fail("ext-large:"+n+":step-overrun", fmt.Sprintf("CHILD depth=300 dur=120000ms cancel=0ms mem=%s api=0 autostate=0 durpct=0 noreg=false compact=false gen= n=0 src=%s", largeMem, Hx([]byte(sp.Src))),
-				fmt.Sprintf("one call of %s on the large operands is an uninterruptible step of %.0f ms (bound %.0f ms): a deadline that fires at its start is overrun by that much", n, d, slackMs))
+				fmt.Sprintf("one call of %s on the large operands is an uninterruptible step of %.0f ms (bound %.0f ms, smallest of up to five samples): a deadline that fires at its start is overrun by that much", n, d, stepBound))
 		}
 	}
 	c.Extra["ext_large_step_ms_confirmed"] = final
@@ -1119,12 +1144,73 @@ func reviewerItems(c *Ctx) {
 		sp = childSpec{Src: p.src, MaxDepth: 400, DurMs: 300, ASLimit: asLimit, Unrestricted: true}
 		judge(c, p.kind, sp, runChild(c, sp, memLimitStr, 8*time.Second), p.want)
 	}
+	// output is buffered per call (for the memo cache) and copied into the caller's buffer on return: a deep recursion that
+	// prints copies everything printed so far at every level while it unwinds
 	if c.Thorough() {
+		sp = childSpec{Src: "func f(n){println(n); f(n+1)}; f(0)", MaxDepth: 0, DurMs: 500}
+		judge(c, "rec-println-unwind", sp, runChild(c, sp, "4GiB", 60*time.Second), "deadline depth")
+		// 4M nested parentheses: the recursive-descent parser itself exhausts the Go stack (same family as frontend-huge-parens)
+		sp = childSpec{Gen: "parens", N: 4000000, MaxDepth: 100, DurMs: 50}
+		judge(c, "frontend-huge-parens", sp, runChild(c, sp, "4GiB", 120*time.Second), "")
+		sp = childSpec{Src: `eval("` + strings.Repeat("(", 4000000) + "1" + strings.Repeat(")", 4000000) + `")`, MaxDepth: 100, DurMs: 50}
+		judge(c, "frontend-huge-parens", sp, runChild(c, sp, "4GiB", 120*time.Second), "")
 		// a saved state is evaluated line by line BEFORE the evaluation context exists and outside any recover
 		sp = childSpec{Src: "1", MaxDepth: 400, DurMs: 200, ASLimit: asLimit, AutoStateText: "x=1\nfor true {}\n"}
 		judge(c, "autoload-hostile-loop", sp, runChild(c, sp, memLimitStr, 8*time.Second), "")
 		sp = childSpec{Src: "1", MaxDepth: 400, DurMs: 200, ASLimit: asLimit, AutoStateText: "func g(){g()}\ng()\n"}
 		judge(c, "autoload-hostile-rec", sp, runChild(c, sp, memLimitStr, 30*time.Second), "")
+	}
+}
+
+// Growing operators in their ASYMMETRIC shapes under a small budget (GOMEMLIMIT=128MiB): a huge operand on one side and a
+// tiny one on the other, the results kept alive in a container or along a recursion.  The budget check is on the RESULT,
+// whatever the operand sizes: every program must end in the memory guard (or the depth guard / deadline for the
+// recursions) with a peak RSS inside the usual bound.
+func asymmetricGrowth(c *Ctx) {
+	const small = "128MiB"
+	n := 12
+	if c.Thorough() {
+		n = 200
+	}
+	keep := func(pre, expr string) string {
+		return fmt.Sprintf("%s; a=[]; for %d {a = a + [%s]}; len(a)", pre, n, expr)
+	}
+	bigS := `s="a"*30000000`
+	bigA := `b=[0]*2000000`
+	bigM := `m={}; for i=0:300000 {m[i]=i}`
+	progs := []prog{
+		{"asym-string-plus-left", keep(bigS, `s+"x"`), "memory"},
+		{"asym-string-plus-right", keep(bigS, `"x"+s`), "memory"},
+		{"asym-string-plus-empty", keep(bigS, `s+""`), "memory deadline none"},
+		{"asym-string-plus-4096", keep(bigS, `s+("y"*4096)`), "memory"},
+		{"asym-string-plus-4097", keep(bigS, `s+("y"*4097)`), "memory"},
+		{"asym-string-times-1", keep(bigS, `(s+"x")*1`), "memory"},
+		{"asym-string-times-fresh", keep("1", `"a"*30000000`), "memory"},
+		{"asym-string-rec", bigS + `; func f(t){f(t+"x")}; f(s)`, "memory depth"},
+		{"asym-string-rec-right", bigS + `; func f(t){f("x"+t)}; f(s)`, "memory depth"},
+		{"asym-string-sprintf", keep(bigS, `sprintf("%sx", s)`), "memory"},
+		{"asym-string-join", keep(bigS, `join([s,"x"])`), "memory"},
+		{"asym-array-plus-elem", keep(bigA, `b+1`), "memory"},
+		{"asym-array-plus-small", keep(bigA, `b+[1]`), "memory"},
+		{"asym-array-small-plus", keep(bigA, `[1]+b`), "memory"},
+		{"asym-array-plus-empty", keep(bigA, `b+[]`), "memory deadline none"},
+		{"asym-array-times-1", keep(bigA, `(b+[1])*1`), "memory"},
+		{"asym-array-times-fresh", keep("1", `[0]*2000000`), "memory"},
+		{"asym-array-rec", bigA + `; func f(t){f(t+1)}; f(b)`, "memory depth"},
+		{"asym-array-slice", keep(bigA, `b[1:]+[1]`), "memory"},
+		{"asym-array-range", keep("1", `0:2000000`), "memory"},
+		{"asym-map-plus-small", keep(bigM, `m+{"k":1}`), "memory deadline"},
+		{"asym-map-small-plus", keep(bigM, `{"k":1}+m`), "memory deadline"},
+		{"asym-map-assign", bigM + fmt.Sprintf(`; a=[]; for j=%d {m[-j-1]=j; a=a+[m]}; len(a)`, n), "memory deadline none"},
+	}
+	quick := map[string]bool{"asym-string-plus-left": true, "asym-string-plus-right": true, "asym-string-plus-4096": true, "asym-string-rec": true,
+		"asym-string-sprintf": true, "asym-array-plus-elem": true, "asym-array-small-plus": true, "asym-array-rec": true, "asym-map-plus-small": true}
+	for _, p := range progs {
+		if !c.Thorough() && !quick[p.kind] {
+			continue
+		}
+		sp := childSpec{Src: p.src, MaxDepth: 300, DurMs: 8000, ASLimit: asLimit}
+		judge(c, p.kind, sp, runChild(c, sp, small, 25*time.Second), p.want)
 	}
 }
 
@@ -1247,6 +1333,9 @@ func runC09(c *Ctx) {
 			}
 		}
 	}
+
+	// 3d. growing operators, asymmetric operands, results kept alive, small budget
+	asymmetricGrowth(c)
 
 	// 4. child sweep
 	cfgs := []cfg{{10, 1}, {150, 60}, {400, 200}}
